@@ -488,7 +488,21 @@ def h_mergemech(case):
     return {'out': [[r.start, r.start + r.length - 1] for r in out]}
 
 
+def h_intvalue(case):
+    """internal helpers of the English number parser, observed for the mechanism model IntValue.tla (advisory)"""
+    global _ENP
+    try:
+        _ENP
+    except NameError:
+        from recognizers_number.number.parser_factory import AgnosticNumberParserFactory, ParserType
+        from recognizers_number.number.english.parsers import EnglishNumberParserConfiguration
+        _ENP = AgnosticNumberParserFactory.get_parser(ParserType.NUMBER, EnglishNumberParserConfiguration())
+    m = _ENP._BaseNumberParser__get_matches(case['text'])
+    return {'matches': m, 'value': str(_ENP._BaseNumberParser__get_int_value(m))}
+
+
 _HANDLERS = {
+    'intvalue': h_intvalue,
     'mergemech': h_mergemech,
     'unit_tables': h_unit_tables,
     'purity_scenario': h_purity_scenario,
